@@ -32,7 +32,7 @@ CHECKS.update({
 })
 CHECKS.update({
  "C09": ("Coq: model of _simulate_detailed equals the documented superposition formula for every load sequence / kernel / step; zero-load, linearity, ground-temperature shift, and rejection-raises (Abel summation, explicit side conditions) theorems; per-step correspondence with real GHE objects using the kernel sampled from the real interpolant",
-         "the kernel g is abstract (C10/C11); unit handling (kW->W, hours, per borehole) is observed by evaluating the formula from the raw hybrid/hourly loads", "6 C09"),
+         "the kernel g is abstract (C10/C11); unit handling (kW->W, hours, per borehole) is observed by evaluating the formula from the raw hybrid/hourly loads; the hourly load sequence (year repeated end to end, cut at the horizon) is proved on the expressions regenerated from GHE.simulate", "6 C09"),
  "C20": ("Coq: equivalence of borehole and system flow specifications, formula and 1/N theorems on retrieve_flow and the two BaseGHE flow lines REGENERATED from the source (and the translator's obligation that both copies of retrieve_flow are identical); correspondence on 1..400 boreholes; paired real simulations",
          "resistance and temperatures follow by congruence through external code; observed on paired simulations", "6 C20"),
 })
